@@ -153,16 +153,40 @@ func sortedKeys[V any](m map[string]V) []string {
 // parameter *unchanged* — a constructor that trims, lower-cases or otherwise normalises the text before
 // parsing accepts strings the strict parser rejects, and handlers store the raw string they validated.
 func callsFn(fn *ssa.Function, name string) bool {
+	if len(fn.Params) == 0 {
+		return false
+	}
+	return passesParamTo(fn, fn.Params[0], name, 0)
+}
+
+// passesParamTo: fn hands its parameter prm, unchanged, to the types/math function `name` — directly, or
+// through a same-package helper that does.
+func passesParamTo(fn *ssa.Function, prm *ssa.Parameter, name string, depth int) bool {
+	if depth > 3 || len(fn.Blocks) == 0 {
+		return false
+	}
+	isStr := false
+	if bt, isB := prm.Type().Underlying().(*types.Basic); isB && bt.Kind() == types.String {
+		isStr = true
+	}
 	for _, ci := range callsIn(fn) {
-		if sc := ci.Common().StaticCallee(); sc != nil && mathFnName(sc) == name && strings.HasSuffix(fnPkgPath(sc), mathPkgSuffix) {
-			if len(fn.Params) > 0 && len(ci.Common().Args) > 0 {
-				if bt, isB := fn.Params[0].Type().Underlying().(*types.Basic); isB && bt.Kind() == types.String {
-					if ci.Common().Args[0] != ssa.Value(fn.Params[0]) {
-						continue
-					}
-				}
+		sc := ci.Common().StaticCallee()
+		if sc == nil || !strings.HasPrefix(fnPkgPath(sc), fnPkgPath(fn)) && !strings.HasSuffix(fnPkgPath(sc), mathPkgSuffix) {
+			continue
+		}
+		for i, a := range ci.Common().Args {
+			if isStr && a != ssa.Value(prm) {
+				continue
 			}
-			return true
+			if !isStr && i > 0 {
+				break
+			}
+			if mathFnName(sc) == name && strings.HasSuffix(fnPkgPath(sc), mathPkgSuffix) && i == 0 {
+				return true
+			}
+			if sc.Pkg == fn.Pkg && sc != fn && i < len(sc.Params) && isStr && passesParamTo(sc, sc.Params[i], name, depth+1) {
+				return true
+			}
 		}
 	}
 	return false
@@ -408,7 +432,8 @@ func dynInstances(p *Program, fn *ssa.Function, ci ssa.CallInstruction) int {
 				a = ct.X
 			}
 			if ctx, m, ok := boundCtxMethod(a); ok {
-				seen[fmt.Sprint(addrRoot(derefLoad(ctx)))+"."+m] = true
+				// one instance per call site that passes an operation
+				seen[fmt.Sprintf("%p|%s.%s", c2, fmt.Sprint(addrRoot(derefLoad(ctx))), m)] = true
 			}
 		}
 	}
@@ -908,57 +933,42 @@ func ruleParse(c *Ctx, p *Program, byName map[string]*ssa.Function) {
 		c.Undecide("C19.M4", "NewDecFromString", "-", "function no longer exists")
 		return
 	}
-	// find comparisons of the Form field with constants
-	finiteGuard := false
+	// the parse and the finite-only test may sit in the function or in same-package helpers it calls
 	parsesWithApd := false
-	for _, ci := range callsIn(fn) {
-		if pkg, name := calleePkgName(ci.Common()); strings.Contains(pkg, "cockroachdb/apd") && (name == "NewFromString" || name == "Decimal.SetString") {
-			parsesWithApd = true
-		}
-	}
 	var formCmps []string
-	var finiteTests []*ssa.BinOp // Form ==/!= apd.Finite
-	for _, b := range fn.Blocks {
-		for _, in := range b.Instrs {
-			bo, ok := in.(*ssa.BinOp)
-			if !ok || (bo.Op != token.EQL && bo.Op != token.NEQ) {
-				continue
+	seenFns := map[*ssa.Function]bool{}
+	var scan func(f *ssa.Function, depth int)
+	scan = func(f *ssa.Function, depth int) {
+		if f == nil || seenFns[f] || depth > 2 || len(f.Blocks) == 0 {
+			return
+		}
+		seenFns[f] = true
+		for _, ci := range callsIn(f) {
+			if pkg, name := calleePkgName(ci.Common()); strings.Contains(pkg, "cockroachdb/apd") && (name == "NewFromString" || name == "Decimal.SetString") {
+				parsesWithApd = true
 			}
-			var cst ssa.Value
-			if isFormLoad(bo.X) {
-				cst = bo.Y
-			} else if isFormLoad(bo.Y) {
-				cst = bo.X
+			if sc := ci.Common().StaticCallee(); sc != nil && sc.Pkg == fn.Pkg {
+				scan(sc, depth+1)
 			}
-			if cst == nil {
-				continue
-			}
-			v, ok := constInt(cst)
-			if !ok {
-				continue
-			}
-			formCmps = append(formCmps, fmt.Sprint(v))
-			if v == 0 { // apd.Finite == 0
-				finiteTests = append(finiteTests, bo)
+		}
+		for _, b := range f.Blocks {
+			for _, in := range b.Instrs {
+				if bo, ok := in.(*ssa.BinOp); ok && (bo.Op == token.EQL || bo.Op == token.NEQ) {
+					var cst ssa.Value
+					if isFormLoad(bo.X) {
+						cst = bo.Y
+					} else if isFormLoad(bo.Y) {
+						cst = bo.X
+					}
+					if v, isC := constInt(cst); cst != nil && isC {
+						formCmps = append(formCmps, fmt.Sprint(v))
+					}
+				}
 			}
 		}
 	}
-	// on every path to a success return the atom "Form == Finite" has been decided true (by an == test
-	// taken, or a != test not taken — a switch case, an if chain, an early return are the same thing)
-	if len(finiteTests) > 0 {
-		finiteGuard, _ = everySuccessPath(fn, func(pf *pgPath, n *pgNamer, bp []*ssa.BasicBlock, ev ssa.Value) bool {
-			for _, bo := range finiteTests {
-				t, _ := n.literalOf(bo)
-				if bo.Op == token.NEQ {
-					// literalOf folds != into the negated == atom: the atom itself is what is recorded
-				}
-				if v, seen := pf.lits[t]; seen && v {
-					return true
-				}
-			}
-			return false
-		})
-	}
+	scan(fn, 0)
+	finiteGuard := finiteGuarded(fn, 0)
 	c.Check(parsesWithApd, "C19.M4", "NewDecFromString#parser", p.Pos(fn.Pos()), "string is parsed by apd.NewFromString")
 	c.Check(finiteGuard, "C19.M4", "NewDecFromString#finite-only", p.Pos(fn.Pos()), "every success return lies behind Form == apd.Finite (NaN, signalling NaN and Infinite are rejected); form comparisons seen: "+strings.Join(formCmps, ","))
 }
@@ -1560,6 +1570,79 @@ func placesGuarded(fn *ssa.Function, max *ssa.Parameter, depth int) bool {
 	ok, _ := everySuccessPath(fn, func(pf *pgPath, n *pgNamer, bp []*ssa.BasicBlock, ev ssa.Value) bool {
 		for _, t := range tests {
 			if v, seen := pf.lits[n.term(t.bo, 0)]; seen && v == t.wantTrue {
+				return true
+			}
+		}
+		for _, h := range helpers {
+			if ev == h.errVal && onPath(bp, h.call.Block()) {
+				return true
+			}
+			if v, seen := pf.lits["("+orderPair(n.term(h.errVal, 0), "nil")+")"]; seen && v {
+				return true
+			}
+		}
+		return false
+	})
+	return ok
+}
+
+
+// finiteGuarded: on every path of fn to a success return the atom "Form == apd.Finite" has been decided
+// true — by a test in fn itself (an == taken, a != not taken; switch case, if chain, early return alike)
+// or because a same-package helper for which this holds returned a nil error on the path.
+func finiteGuarded(fn *ssa.Function, depth int) bool {
+	if depth > 3 || len(fn.Blocks) == 0 {
+		return false
+	}
+	var tests []*ssa.BinOp
+	for _, b := range fn.Blocks {
+		for _, in := range b.Instrs {
+			bo, ok := in.(*ssa.BinOp)
+			if !ok || (bo.Op != token.EQL && bo.Op != token.NEQ) {
+				continue
+			}
+			var cst ssa.Value
+			if isFormLoad(bo.X) {
+				cst = bo.Y
+			} else if isFormLoad(bo.Y) {
+				cst = bo.X
+			}
+			if cst == nil {
+				continue
+			}
+			if v, isC := constInt(cst); isC && v == 0 { // apd.Finite == 0
+				tests = append(tests, bo)
+			}
+		}
+	}
+	type helper struct {
+		call   *ssa.Call
+		errVal ssa.Value
+	}
+	var helpers []helper
+	for _, ci := range callsIn(fn) {
+		call, isCall := ci.(*ssa.Call)
+		if !isCall {
+			continue
+		}
+		sc := call.Call.StaticCallee()
+		if sc == nil || sc == fn || sc.Pkg != fn.Pkg || len(sc.Blocks) == 0 || errResultIndex(sc.Signature) < 0 {
+			continue
+		}
+		if !finiteGuarded(sc, depth+1) {
+			continue
+		}
+		if ev := errValueOf(call); ev != nil {
+			helpers = append(helpers, helper{call, ev})
+		}
+	}
+	if len(tests)+len(helpers) == 0 {
+		return false
+	}
+	ok, _ := everySuccessPath(fn, func(pf *pgPath, n *pgNamer, bp []*ssa.BasicBlock, ev ssa.Value) bool {
+		for _, bo := range tests {
+			t, _ := n.literalOf(bo)
+			if v, seen := pf.lits[t]; seen && v {
 				return true
 			}
 		}
